@@ -662,7 +662,9 @@ def _sample_chains_worker(
             if isinstance(exception, AdaptationError):
                 iter_queue.put(None)
             else:
-                chain_outputs.append((chain_index, outputs))
+                # Return (advanced) random number generator for chain alongside outputs
+                # so parent process can continue stream in any subsequent sampling stages
+                chain_outputs.append((chain_index, outputs, chain_kwargs["rng"]))
             # If returned handled exception was a manual interrupt put exception
             # on iteration queue to communicate to parent process and break
             if isinstance(exception, KeyboardInterrupt):
@@ -713,9 +715,11 @@ def _sample_chains_parallel(
             # Shared queue for workers to get arguments for _sample_chain calls
             # from on initialising each chain
             chain_queue = manager.Queue()
+            per_chain_rngs = []
             for c, (chain_kwargs, n_iter) in enumerate(
                 zip(per_chain_kwargs, n_iters, strict=True),
             ):
+                per_chain_rngs.append(chain_kwargs["rng"])
                 # Map memmaps to their filepaths prior to putting on argument queue to
                 # avoid serializing potentially large memory mapped arrays
                 chain_kwargs["chain_stats"] = _memmaps_to_file_paths(
@@ -794,7 +798,17 @@ def _sample_chains_parallel(
             indexed_chain_outputs = [r for res in results.get() for r in res]
             # Sort list by chain index (first element of tuple entries) and
             # then create new list with chain index removed
-            chain_outputs = [outp for i, outp in sorted(indexed_chain_outputs)]
+            chain_outputs = []
+            for chain_index, outp, rng in sorted(
+                indexed_chain_outputs, key=lambda r: r[0]
+            ):
+                chain_outputs.append(outp)
+                # Worker processes operate on copies of the per-chain random number
+                # generators so copy back their advanced states to avoid subsequent
+                # sampling stages replaying the same random streams
+                per_chain_rngs[chain_index].bit_generator.state = (
+                    rng.bit_generator.state
+                )
         else:
             chain_outputs = []
     return (*_collate_chain_outputs(chain_outputs), exception)
